@@ -1,65 +1,90 @@
 package main
 
 import (
-	"go/token"
-	"path/filepath"
+	"fmt"
 	"runtime"
 	"strings"
+	"time"
 
 	"golang.org/x/tools/go/ssa"
 )
 
-// C14 — containers: whole-effect critical sections for the concurrent map,
-// atomic map and slice; ring ≡ container/ring modulo generics.
+func runtimeGOROOT() string { return runtime.GOROOT() }
 
-func c14Specs(mod string) []GuardSpec {
-	cm := mod + "/concurrency/cmap"
-	sl := mod + "/concurrency/slice"
-	return []GuardSpec{
-		{Field: FieldID{cm + ".mapimpl", "m"}, Lock: cm + ".mapimpl.lock"},
-		{Field: FieldID{cm + ".atomicMap", "items"}, Lock: cm + ".atomicMap.lock"},
-		{Field: FieldID{cm + ".AtomicValue", "value"}, Lock: cm + ".AtomicValue.lock"},
-		{Field: FieldID{sl + ".slice", "data"}, Lock: sl + ".slice.lock"},
-	}
-}
+// C14 — containers: whole-effect critical sections for the concurrent map,
+// atomic map and slice (c14section.go); ring ≡ container/ring (c14ring.go,
+// c14sym.go, c14symexec.go, c14ringexec.go); buffered ring bookkeeping
+// (c14buffered.go).
 
 func init() { register("C14", checkC14) }
 
 func checkC14(c *Ctx) {
 	r := c.R
-	r.Explanation = "Decides two structural necessary conditions of C14. (1) For cmap.mapimpl.m, cmap.atomicMap.items, cmap.AtomicValue.value and slice.slice.data: every access in every function of the module happens with the owning RWMutex held (write mode for stores, map updates, delete, clear), and every method touches the field inside ONE critical section, or — the accepted double-checked idiom — a later section re-reads the field before writing it. A method whose effect is split across lock releases, a writer under RLock, or an unlocked read cannot be linearizable. (2) ring/ring.go is declaration-by-declaration identical to the toolchain's container/ring after erasing type parameters, comments and local names. (3) For the buffered ring only bookkeeping necessary conditions: AppendBack stores the value at Move(end) and increments end exactly once, RemoveFront advances the head by one Next() and decrements end exactly once, Len returns end, Front returns the head's value, and the grow/shrink decisions depend only on the live ring length or on fields that are updated in both the linking and the unlinking branch (a capacity cache updated on growth only goes stale after a shrink). NOT decided: linearizability as such (these are necessary, not sufficient, conditions); the buffered ring's FIFO/grow/shrink behaviour as model equivalence."
+	r.Explanation = "Decides structural necessary conditions of C14; every construct is resolved by ROLE (types, dataflow, exported anchors), never by an unexported name. (1) Containers: the struct types behind the exported anchors cmap.NewMap, cmap.NewAtomic, cmap.AtomicValue and slice.New are found through the constructors; in each, the one sync.(RW)Mutex field guards every other field. guard: every access to such a field in every function of the module happens with that mutex held (write mode for stores, map updates, delete, clear); helpers called with the lock held, deferred closures, and closures handed to a lock-taking helper as a callback inherit the caller's lockset. section: no method touches a state field in two critical sections (decided by a path analysis: no re-acquisition between two accesses; a call to a sibling that runs its own critical section counts as an access of the kind the sibling performs), or - the accepted double-checked idiom - the earlier sections only read and every write of a later section is preceded under the same acquisition by a re-read (possibly inside the sibling that writes). A method whose effect is split across lock releases, a writer under RLock, or an unlocked read cannot be linearizable. (2) ring ~ container/ring: per exported function of the reference (New and the methods of Ring) a layered decision: (a) the declaration and everything it reaches is AST-identical to $GOROOT/src/container/ring modulo generics and local names => OK; else (b) the two go/ssa functions are proved equivalent by relational symbolic execution - shared symbolic inputs and path condition, helpers executed in place on both sides, one store chain per field, canonical linear integer terms and comparisons (guard inversion, if/switch, early return, temporaries, operand order, n<=0 vs n<1, counted-loop variants, loop rotation, extracted/inlined helpers, renamed unexported fields/methods, captured variables all vanish), loops by induction over product cut points (loop-carried values get shared fresh symbols / base+d*k counters, the equalities are verified inductive) => OK; else (c) a bounded differential evaluation of the two SSA functions over small concrete heaps (nil, zero-value nodes, rings of 1..5 nodes, a second ring or position, n in -7..7, a recording callback) finds an input with different results / links / Values / callback sequence / panic => VIOLATION with that witness (and the differing leaf when the token shapes agree); else (d) UNDECIDED for that function only. The unexported link fields are matched by the bijection of same-typed fields under which most functions agree. (3) Buffered ring, bookkeeping necessary conditions with helpers followed (callee bodies as if inlined, parameters resolved through call sites): the head field is the *Ring field, the count field is what Len returns; AppendBack adds 1 to the count exactly once on every path, RemoveFront subtracts 1 exactly once and stores Next(head) (or Move(head,1)) into the head exactly once; Len returns the count; every ring linked on growth is New(k) with k >= 1 for every value ever stored into the size field; the grow/shrink decisions read only the count, the live ring, fields written only during construction, or fields that are updated both where the ring is linked and where it is unlinked. NOT decided: linearizability as such (these are necessary, not sufficient, conditions); the buffered ring's FIFO/grow/shrink behaviour as model equivalence; ring functions that are neither proved nor refuted."
 	r.Assumptions = append(r.Assumptions,
 		"lock identity is (struct type, field): two instances of one type are not distinguished; adequate because each guarded field lives in the struct that owns the lock",
-		"interface-dispatched calls do not acquire or release the tracked locks")
+		"interface-dispatched calls do not acquire or release the tracked locks",
+		"ring equivalence: integer arithmetic is treated as unbounded (no wrap-around at 2^63); a dereference is compared as a set per path (which pointers are dereferenced), not by its position among the stores; the callback of Do does not modify the ring (as container/ring documents)",
+		"ring refutation: witnesses are searched only among well-formed heaps (disjoint rings and zero-value nodes)")
 	r.Rule("C14.guard", "guarded-by: accesses to the container's storage field need its RWMutex (W for writes)", 19)
 	r.Rule("C14.section", "whole-effect: all accesses of a method lie in one critical section, or later write sections re-read first (double check)", 19)
 	r.Rule("C14.buffered-count", "Buffered: AppendBack counts one element in, RemoveFront one out and advances the head by exactly one; Len/Front read end / the head", 4)
 	r.Rule("C14.buffered-capacity", "Buffered: growth/shrink decisions use the live ring length, or a capacity field that is updated wherever the ring is linked AND unlinked; buffer size >= 1", 3)
-	r.Rule("C14.ring-iso", "ring/ring.go ≡ $GOROOT/src/container/ring/ring.go modulo generics", 10)
+	r.Rule("C14.ring-iso", "every exported function of ring (New, the methods of Ring) behaves like its counterpart in $GOROOT/src/container/ring: AST-identical modulo generics, or proved equivalent on go/ssa, else refuted by a concrete small heap", 9)
 
-	specs := c14Specs(c.P.ModPath)
-	e := c.Locks()
-	n := CheckGuardedBy(c.P, e, r, "C14.guard", specs)
-	CheckSingleSection(c.P, e, r, "C14.section", specs)
+	containers := c14ResolveContainers(c.P)
+	specs, immutable := c14DropImmutable(c.P, c14SpecsOf(containers))
+	r.Stats["fields_immutable_after_construction"] = immutable
+	var roles []string
+	for _, ct := range containers {
+		roles = append(roles, fmt.Sprintf("%s: type %s, state fields %v guarded by %s", ct.Anchor, shortID(ct.Type), ct.Fields, shortID(ct.Lock)))
+	}
+	r.Stats["containers_by_role"] = roles
+	cpk := map[string]bool{}
+	for _, ct := range containers {
+		if i := strings.LastIndex(ct.Type, "."); i > 0 {
+			cpk[ct.Type[:i]] = true
+		}
+	}
+	e := c14Locks(c, cpk)
+	unattr := c14UnattributedLockOps(c.P, e, cpk)
+	tmp := NewReport(r.Prop, r.Tier)
+	n := CheckGuardedBy(c.P, e, tmp, "C14.guard", specs)
+	c14CheckSections(c.P, e, tmp, "C14.section", specs)
+	c14Forward(r, tmp, unattr)
+	r.Stats["lock_operations_unattributed"] = unattr
 	r.Stats["guarded_accesses"] = n
 	r.Stats["lock_operations_unresolved"] = e.UnresolvedAt
 
-	ref := filepath.Join(runtime.GOROOT(), "src", "container", "ring", "ring.go")
-	if gr := goEnvGOROOT(); gr != "" {
-		ref = filepath.Join(gr, "src", "container", "ring", "ring.go")
-	}
-	CompareIso(r, "C14.ring-iso", filepath.Join(c.P.Dir, "ring", "ring.go"), ref, "ring/ring.go",
-		map[string]string{"T": "any"}, map[string]bool{"Ring": true, "New": true})
+	t0 := time.Now()
+	c14Ring(c, "C14.ring-iso")
+	r.Stats["ring_equivalence_ms"] = time.Since(t0).Milliseconds()
 
 	c14Buffered(c)
 
+	c.Fixture("c14sec", func(fp *Prog, fr *Report) {
+		fc := &Ctx{P: fp, R: fr, Tier: c.Tier, VerifDir: c.VerifDir}
+		fc.locks = NewLockEngine(fp)
+		fc.locks.Run()
+		fe := c14Locks(fc, map[string]bool{fp.ModPath: true})
+		fs := c14FixtureSpecs(fp.ModPath)
+		CheckGuardedBy(fp, fe, fr, "guard", fs)
+		c14CheckSections(fp, fe, fr, "section", fs)
+	})
 	c.Fixture("locks", func(fp *Prog, fr *Report) {
 		fe := NewLockEngine(fp)
 		fe.Run()
 		fs := fixtureLockSpecs(fp.ModPath)
 		CheckGuardedBy(fp, fe, fr, "guard", fs)
-		CheckSingleSection(fp, fe, fr, "section", fs)
+		c14CheckSections(fp, fe, fr, "section", fs)
 	})
+}
+
+func c14FixtureSpecs(mod string) []GuardSpec {
+	return []GuardSpec{
+		{Field: FieldID{mod + ".box", "m"}, Lock: mod + ".box.mu"},
+		{Field: FieldID{mod + ".box", "n"}, Lock: mod + ".box.mu"},
+	}
 }
 
 func fixtureLockSpecs(mod string) []GuardSpec {
@@ -67,223 +92,6 @@ func fixtureLockSpecs(mod string) []GuardSpec {
 		{Field: FieldID{mod + ".box", "m"}, Lock: mod + ".box.mu"},
 		{Field: FieldID{mod + ".box", "n"}, Lock: mod + ".box.mu"},
 	}
-}
-
-// c14Buffered: bookkeeping necessary conditions of ring.Buffered.
-func c14Buffered(c *Ctx) {
-	r, p := c.R, c.P
-	bt := p.ModPath + "/ring.Buffered"
-	end := FieldID{bt, "end"}
-	ringF := FieldID{bt, "ring"}
-	countStores := func(fn *ssa.Function, f FieldID, delta int) (exactlyOnce bool) {
-		ff := &FlagFlow{Fn: fn, Must: false, Entry: 1 << 0, Transfer: func(in ssa.Instruction, st uint64) uint64 {
-			s, ok := in.(*ssa.Store)
-			if !ok {
-				return st
-			}
-			d := refDelta(s, f)
-			if d == 0 {
-				return st
-			}
-			return mapStates(st, func(n int) int {
-				if d != delta || n == 3 {
-					return 3
-				}
-				if n >= 2 {
-					return 2
-				}
-				return n + 1
-			})
-		}}
-		ff.Run()
-		ok, n := true, 0
-		ff.AtReturns(func(ret *ssa.Return, st uint64) {
-			n++
-			if st != 1<<1 {
-				ok = false
-			}
-		})
-		return ok && n > 0
-	}
-	app := p.Func("ring", "Buffered.AppendBack")
-	rem := p.Func("ring", "Buffered.RemoveFront")
-	r.Check(countStores(app, end, 1), "C14.buffered-count", "ring.Buffered.AppendBack end", p.Pos(app.Pos()), "end incremented exactly once on every path", "AppendBack does not count the appended element exactly once (Len and the position of the next element go wrong)")
-	r.Check(countStores(rem, end, -1), "C14.buffered-count", "ring.Buffered.RemoveFront end", p.Pos(rem.Pos()), "end decremented exactly once on every path", "RemoveFront does not count the removed element out exactly once")
-	// head advance: every store to b.ring in RemoveFront is Next(load b.ring); exactly one
-	adv, nAdv := true, 0
-	allInstrs(rem, func(in ssa.Instruction) {
-		st, ok := in.(*ssa.Store)
-		if !ok {
-			return
-		}
-		fa, ok := st.Addr.(*ssa.FieldAddr)
-		if !ok || fieldIDOfAddr(fa) != ringF {
-			return
-		}
-		nAdv++
-		call, ok := st.Val.(*ssa.Call)
-		if !ok || calleeObj(call) == nil || calleeObj(call).Name() != "Next" {
-			adv = false
-			return
-		}
-		if id, _, ok := fieldOfValue(call.Call.Args[0]); !ok || id != ringF {
-			adv = false
-		}
-	})
-	r.Check(adv && nAdv == 1, "C14.buffered-count", "ring.Buffered.RemoveFront head", p.Pos(rem.Pos()), "head advances by exactly one Next()", "RemoveFront does not advance the head of the ring by exactly one element")
-	// Len returns end
-	lenFn := p.Func("ring", "Buffered.Len")
-	okLen := false
-	allInstrs(lenFn, func(in ssa.Instruction) {
-		if ret, ok := in.(*ssa.Return); ok && len(ret.Results) == 1 {
-			if id, _, ok := fieldOfValue(ret.Results[0]); ok && id == end {
-				okLen = true
-			}
-		}
-	})
-	r.Check(okLen, "C14.buffered-count", "ring.Buffered.Len", p.Pos(lenFn.Pos()), "Len returns end", "Len no longer returns the element count")
-
-	// the growth increment is at least 1: New(0) is nil, so a full ring would not grow and
-	// the next append wraps around over the front element
-	nb := p.Func("ring", "NewBuffered")
-	okClamp, nSt := true, 0
-	allInstrs(nb, func(in ssa.Instruction) {
-		st, ok := in.(*ssa.Store)
-		if !ok {
-			return
-		}
-		fa, ok := st.Addr.(*ssa.FieldAddr)
-		if !ok || fieldIDOfAddr(fa) != (FieldID{bt, "bsize"}) {
-			return
-		}
-		nSt++
-		if c14LowerBound(st.Val, 0) < 1 {
-			okClamp = false
-		}
-	})
-	r.Check(okClamp && nSt > 0, "C14.buffered-capacity", "ring.NewBuffered bsize >= 1", p.Pos(nb.Pos()), "buffer size defaults to at least 1",
-		"NewBuffered can store a buffer size below 1: AppendBack on a full ring then links New(0) (nil), the ring does not grow, and the next element is written over the front element while Len keeps counting")
-
-	// capacity decisions
-	for _, spec := range []struct {
-		fn            *ssa.Function
-		callee, other string
-		otherFn       *ssa.Function
-	}{{app, "Link", "Unlink", rem}, {rem, "Unlink", "Link", app}} {
-		construct := FuncName(p, spec.fn) + " " + spec.callee + " decision"
-		var blk *ssa.BasicBlock
-		allInstrs(spec.fn, func(in ssa.Instruction) {
-			if call, ok := in.(*ssa.Call); ok && calleeObj(call) != nil && calleeObj(call).Name() == spec.callee && !call.Call.IsInvoke() {
-				blk = call.Block()
-			}
-		})
-		if blk == nil {
-			r.Violation("C14.buffered-capacity", construct, p.Pos(spec.fn.Pos()), "the ring is no longer "+strings.ToLower(spec.callee)+"ed: the buffer cannot grow/shrink")
-			continue
-		}
-		// fields (other than end/ring/bsize) read by the conditions dominating the block
-		why := ""
-		for _, dc := range domConds(blk) {
-			seen := map[ssa.Value]bool{}
-			var walk func(v ssa.Value)
-			walk = func(v ssa.Value) {
-				if v == nil || seen[v] {
-					return
-				}
-				seen[v] = true
-				if id, _, ok := fieldOfValue(v); ok && id.Type == bt {
-					if id.Field != "end" && id.Field != "ring" && id.Field != "bsize" {
-						// a cached capacity-like field: must be stored in the block that links and in the block that unlinks
-						if !c14StoredNearCall(spec.fn, id, spec.callee) || !c14StoredNearCall(spec.otherFn, id, spec.other) {
-							why = "the decision reads " + id.String() + ", which is not updated both where the ring is linked (grown) and where it is unlinked (shrunk): after the first shrink/growth the cached value no longer equals the ring's real length, elements are written over live ones or Front/RemoveFront return the wrong element"
-						}
-					}
-					return
-				}
-				if in, ok := v.(ssa.Instruction); ok {
-					for _, op := range in.Operands(nil) {
-						walk(*op)
-					}
-				}
-			}
-			walk(dc.If.Cond)
-		}
-		r.Check(why == "", "C14.buffered-capacity", construct, p.Pos(instrPos(blk.Instrs[0])), "decision depends only on end, bsize and the live ring (or on fields maintained on both growth and shrink)", why)
-	}
-}
-
-// c14StoredNearCall: fn stores field f in the block that calls callee (or in a block dominated by it).
-func c14StoredNearCall(fn *ssa.Function, f FieldID, callee string) bool {
-	var blk *ssa.BasicBlock
-	allInstrs(fn, func(in ssa.Instruction) {
-		if call, ok := in.(*ssa.Call); ok && calleeObj(call) != nil && calleeObj(call).Name() == callee && !call.Call.IsInvoke() {
-			blk = call.Block()
-		}
-	})
-	if blk == nil {
-		return false
-	}
-	found := false
-	allInstrs(fn, func(in ssa.Instruction) {
-		if st, ok := in.(*ssa.Store); ok {
-			if fa, ok := st.Addr.(*ssa.FieldAddr); ok && fieldIDOfAddr(fa) == f && (st.Block() == blk || blk.Dominates(st.Block())) {
-				found = true
-			}
-		}
-	})
-	return found
-}
-
-// c14LowerBound: a lower bound of integer value v from constants, max(),
-// and phis whose parameter edges are guarded by a dominating `x < 1`-false /
-// `x >= 1` fact. Unknown = -1<<31.
-func c14LowerBound(v ssa.Value, depth int) int64 {
-	const unknown = -1 << 31
-	if depth > 6 {
-		return unknown
-	}
-	switch x := v.(type) {
-	case *ssa.Const:
-		if x.Value != nil {
-			return x.Int64()
-		}
-	case *ssa.Call:
-		if builtinName(x) == "max" {
-			best := int64(unknown)
-			for _, a := range x.Call.Args {
-				if b := c14LowerBound(a, depth+1); b > best {
-					best = b
-				}
-			}
-			return best
-		}
-	case *ssa.Phi:
-		lo := int64(1 << 31)
-		for i, ed := range x.Edges {
-			b := c14LowerBound(ed, depth+1)
-			if b == unknown {
-				// a non-constant edge: look for a fact on the incoming edge's predecessor
-				pred := x.Block().Preds[i]
-				for _, dc := range append(domConds(pred), c14EdgeCond(pred, x.Block())...) {
-					if cmp, ok := decodeCond(dc.If.Cond, dc.Branch); ok && cmp.X == ed {
-						if k, ok := cmp.Y.(*ssa.Const); ok && k.Value != nil {
-							switch cmp.Op {
-							case token.GEQ:
-								b = k.Int64()
-							case token.GTR:
-								b = k.Int64() + 1
-							}
-						}
-					}
-				}
-			}
-			if b < lo {
-				lo = b
-			}
-		}
-		return lo
-	}
-	return unknown
 }
 
 // c14EdgeCond: the condition of the edge pred->succ if pred ends in an If.
